@@ -134,15 +134,18 @@ func makeOverlay(work, instr string) (string, error) {
 	} else {
 		return "", err
 	}
-	if instr != "" {
-		out := filepath.Join(work, "instr_"+instr)
+	for _, prof := range []string{"v2globals", instr} {
+		if prof == "" {
+			continue
+		}
+		out := filepath.Join(work, "instr_"+prof)
 		os.MkdirAll(out, 0o755)
-		cmd := exec.Command(filepath.Join(hDir, "bin", "vinstr"), "-profile", instr, "-out", out)
+		cmd := exec.Command(filepath.Join(hDir, "bin", "vinstr"), "-profile", prof, "-out", out)
 		cmd.Dir = hDir
 		cmd.Env = append(os.Environ(), goEnv...)
 		b, err := cmd.CombinedOutput()
 		if err != nil {
-			return "", fmt.Errorf("vinstr %s: %v\n%s", instr, err, b)
+			return "", fmt.Errorf("vinstr %s: %v\n%s", prof, err, b)
 		}
 		// vinstr prints "orig\tnew" lines
 		sc := bufio.NewScanner(bytes.NewReader(b))
@@ -615,7 +618,7 @@ func merge(id, tier string, plan Plan, results []jobResult, buildS float64, star
 		outc += ho
 		states += hs
 		trans += ht
-		if !hex {
+		if !hex && !r.job.Race { // the free-running race pass is sampling by nature and not the deciding step
 			exhaustive = false
 		}
 		name := r.job.Harness
